@@ -574,10 +574,11 @@ func (g *Gen) deepEq(a, b reflect.Value, path string) (bool, string) {
 		}
 		for _, k := range a.MapKeys() {
 			bv := b.MapIndex(k)
+			ks := short(fmt.Sprint(k.Interface()), 8)
 			if !bv.IsValid() {
-				return false, fmt.Sprintf("%s[%v]", path, k.Interface())
+				return false, fmt.Sprintf("%s[%s]", path, ks)
 			}
-			if ok, p := g.DeepEq(a.MapIndex(k), bv, fmt.Sprintf("%s[%v]", path, k.Interface())); !ok {
+			if ok, p := g.DeepEq(a.MapIndex(k), bv, fmt.Sprintf("%s[%s]", path, ks)); !ok {
 				return false, p
 			}
 		}
